@@ -202,7 +202,7 @@ Proof.
     + intros. left. congruence.
   - rewrite high_ok_conf in Hok. destruct (high_ok_full P lru h Hok) as [Hf Hp].
     rewrite Hh in Hg. simpl in Hg.
-    apply (LT_adopt P lru n i r _ h); auto. repeat split; auto.
+    apply (LT_adopt P lru n i r _ h); auto; [repeat split; auto|]. exact (high_ok_lru P lru h Hok).
 Qed.
 
 Lemma root_update_ltrans r root : ltrans P lru n i r (root_update r root) [].
